@@ -1,4 +1,5 @@
-// Unit C15 — control-flow-graph construction and editing keep graphs consistent.
+// Unit C18 — program locations: forward / backward stepping are converse, locations() enumerates every
+// location exactly once, owned <-> borrowed locations round-trip, from_address finds an instruction.
 // Generated file = this template + the real text of the items named in the `//@` holes.
 #![feature(allocator_api)]
 #![allow(unused_imports, unused_variables, dead_code, unused_mut, non_snake_case, unused_parens, unused_braces, deprecated)]
@@ -21,8 +22,11 @@ verus! {
 //@ include prelude/fxhash.rs
 //@ include prelude/stdcoll.rs
 //@ include prelude/rc_asref.rs
+//@ include prelude/location_hash.rs
 //@ include units/C11/error_from.rs
+//@ mode contracts-only C15
 //@ include units/C15/error_from_string.rs
+//@ mode full
 
 // falcon::RC (default build, feature "thread_safe" off): the real alias, extracted
 //@ item lib/lib.rs :: type RC#0
@@ -40,13 +44,24 @@ proof fn vf_canary_graph() ensures false {}
 
 pub mod il {
 use super::*;
-// il::ProgramLocation (lib/il/location.rs) is only a payload of falcon::Error here: opaque stand-in
-#[verifier::external_body] pub struct ProgramLocation { _p: () }
+use vstd::std_specs::iter::IteratorSpec;
+//@ mode contracts-only C15
 //@ include units/C15/il_core.rs
-//@ include units/C15/block_edit.rs
-//@ include units/C15/cfg_edit.rs
+//@ mode full
+//@ include units/C18/loc_core.rs
+//@ include units/C18/loc_proofs.rs
 proof fn vf_canary_il() ensures false {}
 } // mod il
+
+// a client that keys a hash map on locations: the key-model axioms of prelude/location_hash.rs are
+// consistent with everything else in scope (canary) and are what HashMap<ProgramLocation, _> needs
+pub mod loc_client {
+use super::*;
+use super::il::*;
+broadcast use {location_hash::axiom_function_location_obeys_key_model, location_hash::axiom_program_location_obeys_key_model,
+    location_hash::axiom_ref_function_location_obeys_key_model, location_hash::axiom_ref_program_location_obeys_key_model};
+proof fn vf_canary_loc_client() ensures false {}
+} // mod loc_client
 
 proof fn vf_canary_root() ensures false {}
 
